@@ -1,7 +1,7 @@
 (* C03 -- the simple objects (histogram, ABMD), the extended-Lagrangian variable over a bias, and the
    combinators preserve [resumable]. *)
 From Coq Require Import ZArith List Bool Lia Reals Lra.
-From CV Require Import Base.Num Base.RNum C03.ResumeModel C03.ResumeProofs C06.RestraintModel C03.ObjectsModel.
+From CV Require Import Base.Num Base.RNum C03.ResumeModel C03.ResumeProofs C06.RestraintModel C03.ObjectsModel C03.UsesC06.
 Import ListNotations.
 Local Open Scope Z_scope.
 
